@@ -176,7 +176,10 @@ func c16GenName(t *rapid.T, pool []nameParts) nameParts {
 }
 
 func c16GenID(t *rapid.T) evid.B {
-	switch rapid.IntRange(0, 5).Draw(t, "idkind") {
+	switch rapid.IntRange(0, 6).Draw(t, "idkind") {
+	case 6:
+		// the real format of current HBase: <timestamp, nowadays 13 digits>.<md5 of the name, 32 hex digits>.
+		return evid.B(rapid.StringMatching(`[0-9]{1,14}\.[0-9a-f]{32}\.`).Draw(t, "id"))
 	case 0:
 		return evid.B(":") // lookup search key
 	case 1:
